@@ -611,6 +611,18 @@ func GenLSpecNG(r *Rng, overlap bool) *LSpec {
 		}
 		s.Modes[0].Rules = append(s.Modes[0].Rules, &LRule{Expr: &LExpr{Alts: [][]*LTerm{{{Kind: LClass, Class: &LClassExpr{Items: []RRange{{'0', '9'}}}, Card: card}}}}})
 	}
+	if !overlap && r.Bool() {
+		// a greedy LITERAL that is exactly a first complete match of a non-greedy rule (EMPTY_STR = '""' next to
+		// STR = '"' .*? '"'): both rules accept at the same position, the earlier declared one wins, and the
+		// non-greedy rule must still stop there. No rule can continue past that point, so this is not K2.
+		ng := s.Modes[0].Rules[r.Intn(n)].Expr.Alts[0]
+		lit := append([]int{}, ng[0].Lit...)
+		if ng[1].Card == "+?" || r.Intn(3) == 0 {
+			lit = append(lit, 'q')
+		}
+		lit = append(lit, ng[2].Lit...)
+		s.Modes[0].Rules = append(s.Modes[0].Rules, &LRule{Expr: &LExpr{Alts: [][]*LTerm{{{Kind: LLit, Lit: lit}}}}})
+	}
 	if overlap {
 		// a greedy rule that starts like the first non-greedy rule and continues with its body characters
 		s.Modes[0].Rules = append(s.Modes[0].Rules, &LRule{Expr: &LExpr{Alts: [][]*LTerm{{{Kind: LLit, Lit: []int{leads[0]}}, {Kind: LClass, Class: &LClassExpr{Items: []RRange{{'a', 'z'}, {'*', '/'}}}, Card: "+"}}}}})
